@@ -52,6 +52,9 @@ def stepLine (s : St) (ws : List String) : St × String :=
   | ["setloc", c, h] => match parseNat? c, parseNat? h with
       | some c, some h => if inRange s [c, h] then res (setLoc s c (s.grid h), true) else bad
       | _, _ => bad
+  | ["replace", b, r] => match parseNat? b, parseNat? r with
+      | some b, some r => if inRange s [b, r] then res (replaceBlock s b r) else bad
+      | _, _ => bad
   | ["moveto", c, h] => match parseNat? c, parseNat? h with
       | some c, some h => if inRange s [c, h] then res (moveTo s c h) else bad
       | _, _ => bad
